@@ -78,7 +78,7 @@ def one_dir(ctx, res, rng, d):
         # notes sharing ID / RID values: g1 twice on ONE page, g2 on two pages, G3 once; r1 once, r2 twice
         files["ids.zo"] = ("# Ids\n\n- 200101#i0 first ID::g1\n- 200101#i1 second ID::g1\n- 200101#i2 third ID::g2\n"
                            "- 200101#i3 only ID::G3\n- 200101#i4 ref RID::r1\n- 200101#i5 ref RID::r2\n")
-        files["ids2.zo"] = "# Ids 2\n\n- 200102#i0 other ID::g2\n- 200102#i1 ref RID::r2\n"
+        files["ids2.zo"] = "# Ids 2\n\n- 200102#i0 other ID::g2\n- 200102#i1 ref RID::r2\n- 200103#00A a note with a three-character ZID\n- 200103#zzz another one\n"
         G.write_dir(zdir, files)
         Z.clear_engine_cache()
         with freeze_time(dt.datetime(*TODAY, 12, 0)):
@@ -105,9 +105,11 @@ def one_dir(ctx, res, rng, d):
             lines, exps = ["# Scratch page" if not is_zoq else "# scratch (not a query)", ""], [None, None]
             # pinned lines on every page: a link to a page that is missing at the root (but has a neighbour in sub/), alone and with
             # company, and a target whose extension holds a digit
-            for line, exp in (("- see [[nosuch]] there", ["[[nosuch]]"]), ("o P1 both [[nosuch#top]], and [[notes.v2]].", ["[[nosuch#top]]", "[[notes.v2]]"])):
+            for line, exp, prim in (("- see [[nosuch]] there", ["[[nosuch]]"], None),
+                                    ("o P1 both [[nosuch#top]], and [[notes.v2]].", ["[[nosuch#top]]", "[[notes.v2]]"], None),
+                                    ("- 200101#i0 see [200103#00A] and 200103#zzz too", ["200103#00A", "200103#zzz"], "200101#i0")):
                 lines.append(line)
-                exps.append((exp, None))
+                exps.append((exp, prim))
             for _ in range(ctx.scale(40, 60) if loc == "" else 12):
                 line, exp, primary = gen_line(rng, lctx)
                 lines.append(line)
